@@ -243,6 +243,16 @@ func expiryLoad(fn *ssa.Function, v ssa.Value) bool {
 // select combinators and closure results) on a value satisfying pred. Conditions of select
 // combinators are not operands.
 func dependsOn(w *World, v ssa.Value, pred func(ssa.Value) bool) bool {
+	return dependsOnX(w, v, pred, false)
+}
+
+// dependsOnCtl additionally follows the conditions of select combinators (control dependence of
+// x.IfThenElse / x.IfThenElseExec results).
+func dependsOnCtl(w *World, v ssa.Value, pred func(ssa.Value) bool) bool {
+	return dependsOnX(w, v, pred, true)
+}
+
+func dependsOnX(w *World, v ssa.Value, pred func(ssa.Value) bool, ctl bool) bool {
 	seen := map[ssa.Value]bool{}
 	var walk func(v ssa.Value) bool
 	walk = func(v ssa.Value) bool {
@@ -260,6 +270,9 @@ func dependsOn(w *World, v ssa.Value, pred func(ssa.Value) bool) bool {
 					if walk(o) {
 						return true
 					}
+				}
+				if ctl && walk(selectCond(x)) {
+					return true
 				}
 				return false
 			}
@@ -294,6 +307,18 @@ func dependsOn(w *World, v ssa.Value, pred func(ssa.Value) bool) bool {
 						return found
 					}
 				}
+			}
+			return walk(x.X)
+		case *ssa.Slice:
+			// slice of a literal backing array (variadic arguments, composite literals)
+			if a, ok := x.X.(*ssa.Alloc); ok {
+				for _, el := range sliceLiteralElems(x) {
+					if el != nil && walk(el) {
+						return true
+					}
+				}
+				_ = a
+				return false
 			}
 			return walk(x.X)
 		}
